@@ -20,7 +20,7 @@ run_demo() {
   return $rc
 }
 run_demo; with=$?
-git stash -q; run_demo; without=$?; git stash pop -q
+git diff > /tmp/seed/$id.undo.diff; git apply -R /tmp/seed/$id.undo.diff; run_demo; without=$?; git apply /tmp/seed/$id.undo.diff   # (git stash is shared between worktrees: never use it here)
 echo "demo exit with change: $with ; without change: $without"
 tail -3 /tmp/seed/$id.demo.log
 if [ "$with" -ne 0 ] && [ "$without" -eq 0 ] && echo "$tests" | grep -q "44 passed; 0 failed"; then
